@@ -159,6 +159,15 @@ func sink(point string, args ...any) {
 			r.yield(strings.TrimPrefix(point, "yield:tasks:"), args)
 		}
 	case strings.HasSuffix(point, ":begin"):
+		if point == "tasks:qh-pop:begin" {
+			// the queue handler has found every slot free and is about to pick: a place to be delayed (yield "qh-pop")
+			G.Lock()
+			r := cur
+			G.Unlock()
+			if r != nil && len(r.scn.Yields) > 0 {
+				r.yield("qh-pop", nil)
+			}
+		}
 		G.Lock() // held until the matching end event
 		if cur != nil && point == "tasks:sh-fetch:begin" {
 			cur.shGid = goid()
